@@ -5,6 +5,7 @@ import (
 	"flag"
 	"fmt"
 	"os"
+	"os/exec"
 	"path/filepath"
 	"sort"
 	"strconv"
@@ -256,6 +257,15 @@ func cmdCheck(args []string) {
 		slowest = append(slowest, map[string]interface{}{"obligation": slow[i].Name, "solver_s": slow[i].Secs, "backend": slow[i].Backend})
 	}
 
+	// bounded stand-ins for assumed contracts of functions outside the verified subset
+	sres := runStandins(prop, *tier, *repo, *verifDir)
+	var standinEv []map[string]interface{}
+	for _, sr := range sres {
+		standinEv = append(standinEv, map[string]interface{}{"function": sr.Name, "level": "bounded", "bound": sr.Bound, "stands_in_for": sr.StandsInFor, "passed": sr.OK, "wall_s": sr.Secs, "cmd": sr.Cmd})
+		if !sr.OK {
+			failed = append(failed, &SolveResult{Name: "standin:" + sr.Name, Kind: "bounded-standin", Result: "failed", Info: "bounded stand-in for the assumed contract failed on the real function (failing input in solver_output)", Output: sr.Output})
+		}
+	}
 	// extra (non-SMT) checks: SSA scans etc.
 	for _, x := range extra {
 		nObl++
@@ -294,6 +304,9 @@ func cmdCheck(args []string) {
 			"solver_output": r.Output,
 		}
 		suffix := " no-failing-input-found"
+		if r.Kind == "bounded-standin" {
+			suffix = "" // the stand-in ran the real function on a concrete failing input (recorded in the replay file)
+		}
 		if r.obl != nil {
 			content["goal"] = r.obl.Goal
 			content["path_condition"] = r.obl.PC
@@ -354,7 +367,7 @@ func cmdCheck(args []string) {
 			"calls_without_contract":  unknownList,
 			"per_obligation_timeout_s": timeout,
 			"backends_required_to_agree": agree,
-			"bounded_standins": standins(prop),
+			"bounded_standins": standinEv,
 		},
 		"assumptions": append(append([]string{}, assumedList...), append(explicitAssumes, propAssumptions(prop)...)...),
 	}
@@ -405,7 +418,65 @@ type extraCheck struct {
 
 func (w *World) extraChecks(prop string) []extraCheck { return nil }
 
-func standins(prop string) []string { return []string{} }
+// A bounded stand-in: a Go test run against the real function where a contract had to be ASSUMED because
+// the function is outside the verified subset. Labelled bounded in the evidence, never counted as proved.
+type standin struct {
+	Name          string   `json:"name"`
+	Properties    []string `json:"properties"`
+	Pkg           string   `json:"pkg"`
+	Test          string   `json:"test"`
+	RunQuick      string   `json:"run_quick"`
+	RunThorough   string   `json:"run_thorough"`
+	BoundQuick    string   `json:"bound_quick"`
+	BoundThorough string   `json:"bound_thorough"`
+	StandsInFor   string   `json:"stands_in_for"`
+}
+
+type standinResult struct {
+	Name, Bound, StandsInFor, Cmd, Output string
+	OK                                   bool
+	Secs                                 float64
+}
+
+func runStandins(prop, tier, repo, verifDir string) []standinResult {
+	var all []standin
+	b, err := os.ReadFile(filepath.Join(verifDir, "standins", "standins.json"))
+	if err != nil {
+		return nil
+	}
+	if err := json.Unmarshal(b, &all); err != nil {
+		fmt.Fprintln(os.Stderr, "standins.json:", err)
+		return nil
+	}
+	var out []standinResult
+	for _, s := range all {
+		if !hasTag(s.Properties, prop) {
+			continue
+		}
+		run, bound := s.RunQuick, s.BoundQuick
+		if tier == "thorough" {
+			run, bound = s.RunThorough, s.BoundThorough
+		}
+		tmp, _ := os.MkdirTemp("", "standin")
+		tf := filepath.Join(verifDir, s.Test)
+		ov := fmt.Sprintf(`{"Replace":{"%s/%s/zz_standin_%s":"%s"}}`, repo, s.Pkg, filepath.Base(tf), tf)
+		os.WriteFile(filepath.Join(tmp, "ov.json"), []byte(ov), 0o644)
+		cmd := exec.Command("go", "test", "-overlay", filepath.Join(tmp, "ov.json"), "-vet=off", "-count=1", "-timeout", "20m", "-run", "^"+run+"$", ".")
+		cmd.Dir = filepath.Join(repo, s.Pkg)
+		cmd.Env = append(os.Environ(), "GOFLAGS=-mod=mod", "GOPROXY=off", "GOSUMDB=off", "GOTOOLCHAIN=local")
+		t0 := time.Now()
+		o, err := cmd.CombinedOutput()
+		os.RemoveAll(tmp)
+		txt := string(o)
+		if len(txt) > 6000 {
+			txt = txt[:6000] + "\n[...]"
+		}
+		ok := err == nil && strings.Contains(string(o), "ok  ") && !strings.Contains(string(o), "no tests to run")
+		out = append(out, standinResult{Name: s.Name, Bound: bound, StandsInFor: s.StandsInFor, OK: ok, Secs: time.Since(t0).Seconds(), Output: txt,
+			Cmd: fmt.Sprintf("cd %s/%s && go test -overlay <%s as in-package test> -vet=off -count=1 -run '^%s$' .", repo, s.Pkg, s.Test, run)})
+	}
+	return out
+}
 
 func propAssumptions(prop string) []string { return nil }
 
